@@ -72,6 +72,10 @@ var (
 	uStruct S              = S{A: 5}
 	uSlice  []int          = l1
 	uFunc   func() int     = f0
+	// zero-valued at start: these live in .noptrbss (pointer-free) and .bss
+	uZero    int
+	uZeroArr [3]int32
+	uZeroPtr *S
 	// interface-typed unexported variables (separate probe stream: -extra ue-iface)
 	uErr error       = e1
 	uAny interface{} = 42
@@ -160,6 +164,9 @@ func Zoo() []Var {
 		{Name: "uPtr", Path: pkg + ".uPtr", Vals: []interface{}{s1, s2, s3, (*S)(nil)}, Read: func() interface{} { return uPtr }, ReadCopy: func() interface{} { return rdUPtr() }, Same: eq},
 		{Name: "uStruct", Path: pkg + ".uStruct", Vals: []interface{}{S{A: 5}, S{}, S{A: 6, B: "b"}, S{B: "q"}}, Read: func() interface{} { return uStruct }, ReadCopy: func() interface{} { return rdUStruct() }, Same: func(a, b interface{}) bool { return fmt.Sprint(a) == fmt.Sprint(b) }},
 		{Name: "uFunc", Path: pkg + ".uFunc", Vals: []interface{}{f0, f1, f2, f3}, Read: func() interface{} { return uFunc }, Same: sameRef},
+		{Name: "uZero", Path: pkg + ".uZero", Vals: []interface{}{0, 1, 2, -1}, Read: func() interface{} { return uZero }, Same: eq},
+		{Name: "uZeroArr", Path: pkg + ".uZeroArr", Vals: []interface{}{[3]int32{}, [3]int32{1, 2, 3}, [3]int32{9, 0, 0}, [3]int32{0, 0, 1}}, Read: func() interface{} { return uZeroArr }, Same: eq},
+		{Name: "uZeroPtr", Path: pkg + ".uZeroPtr", Vals: []interface{}{(*S)(nil), s1, s2, s3}, Read: func() interface{} { return uZeroPtr }, Same: eq},
 		{Name: "uSlice", Path: pkg + ".uSlice", Vals: []interface{}{l1, l2, l3, []int(nil)}, Read: func() interface{} { return uSlice }, ReadCopy: func() interface{} { return rdUSlice() }, Same: sameRef},
 	}
 }
@@ -170,4 +177,5 @@ func ResetAll() {
 	VSlice, VMap, VStruct, VPtr, VFunc, VFuncNil = nil, nil, S{A: 9, B: "nine"}, nil, f0, nil
 	VErr, VStrIf, VAny, VArr, VChan, VAny2 = nil, Str("zero"), nil, [3]int{1, 2, 3}, nil, 42
 	uInt, uString, uMap, uPtr, uStruct, uSlice, uFunc = 70, "uorig", m3, s1, S{A: 5}, l1, f0
+	uZero, uZeroArr, uZeroPtr = 0, [3]int32{}, nil
 }
